@@ -168,6 +168,8 @@ def run_case(case):
             op = rng.choice(["commit", "partial", "amend", "amend-leftover", "rebase", "cherry", "squash", "reset", "stash"] +
                             (["ci"] if mode not in ("exclude", "include-miss") else []))   # those modes need a (fake) remote URL of their own
             where = "op %d %s" % (k, op)
+            if op == "reset":
+                sc.begin_undoable()
             sc.do_edit(author=rng.choice(sc.sessions))
             if op == "commit":
                 sc.commit_all("c")
